@@ -7,6 +7,7 @@ AGENT_RW = {'imports': {
     'hooks.go': {'os/exec': MC + '/vexec', 'time': MC + '/vtime'},
     '*': {'time': MC + '/vtime'}}}
 STORE_FILEOPS = [('store', {'fileops': True})]
+SASL_RW = {'imports': {'*': {'time': MC + '/vtime'}}}
 AGENT_SEQ = {'only_imports': True, 'imports': {'web_session.go': {'time': MC + '/vtime'}}}
 
 
@@ -110,7 +111,7 @@ CHECKS = {
         'note': 'Histories of at most 8 operations; channel-level scheduling points; sequential reference model = property statement; data races left to the -race twin.',
         'parts': [McPart('mc', 'C11', 'cmd/whawty-auth', ['harness/agentmc'], AGENT_RW, extra_rewrites=STORE_FILEOPS),
                   RwTest('race', 'cmd/whawty-auth', ['harness/agentseq'], AGENT_SEQ, '^TestRace$', race=True, env={'VERIF_RACE_PROP': 'C11'}),
-                  McPart('sasl-mc', 'C11', 'sasl', ['harness/saslmc'], {'imports': {}}),
+                  McPart('sasl-mc', 'C11', 'sasl', ['harness/saslmc'], SASL_RW),
                   GoTest('sasl-race', 'sasl', ['harness/saslseq'], '^TestRace$', race=True, env={'VERIF_RACE_PROP': 'C11'})],
     },
     'C03': {
@@ -135,7 +136,7 @@ CHECKS = {
         'technique': 'system-call trace replayed in a file-system persistence model; exhaustive enumeration of power-loss images after every acknowledgement',
         'text': 'One traced history covering init/add/update/set-admin/remove; at every later system call every power-loss image must show every acknowledged operation, observed through a fresh store.Dir.',
         'note': 'Same persistence model as C08.',
-        'parts': [TracePart('durability', 'c09')],
+        'parts': [TracePart('durability', 'c09'), TracePart('fsync-faults', 'c09_faults')],
     },
     'C15': {
         'level': 'fault_enumeration',
@@ -170,7 +171,7 @@ CHECKS = {
         'text': 'Every stream/delivery/callback cell is handled by the real handler over a scripted connection: at most one callback call with exactly the decoded fields, exactly one well-formed length-prefixed reply, then close; positive only if decoded completely and approved without error; every reply decodes with the Go client and the PAM module to the verdict. Concurrent connections are explored under the controlled scheduler: no connection ever sees another one\'s reply.',
         'note': 'Connections are in-memory objects (kernel socket buffering is exercised by C04 over a real unix socket).',
         'parts': [GoTest('streams', 'sasl', ['harness/saslseq'], '^TestC05$'), PamxPart('pam-replies', mode='replies', producer='goreplies.bin'),
-                  McPart('mc', 'C05', 'sasl', ['harness/saslmc'], {'imports': {}}),
+                  McPart('mc', 'C05', 'sasl', ['harness/saslmc'], SASL_RW),
                   GoTest('race', 'sasl', ['harness/saslseq'], '^TestRace$', race=True)],
     },
     'C13': {
@@ -195,6 +196,7 @@ CHECKS = {
         'technique': 'stateless + state-pruned exhaustive schedule exploration of the real (mechanically rewritten) agent under a controlled scheduler; deadlock oracle',
         'text': 'All interleavings (full reachability with state-key pruning for capacity-scaled systems, deviation-bounded under four canonical orders for the true queue capacities) of client requests against the real dispatcher/hooks/upgrader code; oracle: no reachable state without an enabled thread while a request is unanswered, daemons back at their loop heads at quiescence.',
         'note': 'Channel-level scheduling points; modelled timers/exec/http; capacity scaling is an abstraction backed by the true-capacity runs; client mixes are the stated scenarios.',
-        'parts': [McPart('mc', 'C10', 'cmd/whawty-auth', ['harness/agentmc'], AGENT_RW, extra_rewrites=STORE_FILEOPS), BindPart('binding', 'C10', AGENT_RW, AGENT_SEQ)],
+        'parts': [McPart('mc', 'C10', 'cmd/whawty-auth', ['harness/agentmc'], AGENT_RW, extra_rewrites=STORE_FILEOPS), BindPart('binding', 'C10', AGENT_RW, AGENT_SEQ),
+                  McPart('sasl-mc', 'C10', 'sasl', ['harness/saslmc'], SASL_RW)],
     },
 }
